@@ -126,8 +126,13 @@ fn read_u32_be(csr: &mut Cursor<Vec<u8>>) -> corez::io::Result<u32> {
 /// Returns `None` if the parameters are invalid for this minimal encoding.
 pub(crate) fn indices_from_minimal(p: Params, minimal: &[u8]) -> Option<Vec<u32>> {
     let c_bit_len = p.collision_bit_length();
-    // Division is exact because k >= 3.
-    if minimal.len() != ((1 << p.k) * (c_bit_len + 1)) / 8 {
+    // Division is exact because k >= 3. A length that does not fit in a usize cannot
+    // be the length of `minimal`.
+    let expected_len = 1usize
+        .checked_shl(p.k)
+        .and_then(|count| count.checked_mul(c_bit_len + 1))
+        .map(|bits| bits / 8);
+    if expected_len != Some(minimal.len()) {
         return None;
     }
 
